@@ -75,7 +75,7 @@ func Load(repo string, overlay map[string][]byte) (*Ctx, error) {
 	cfg := &packages.Config{
 		Mode: packages.NeedName | packages.NeedFiles | packages.NeedCompiledGoFiles |
 			packages.NeedImports | packages.NeedTypes | packages.NeedTypesSizes |
-			packages.NeedSyntax | packages.NeedTypesInfo | packages.NeedModule,
+			packages.NeedSyntax | packages.NeedTypesInfo | packages.NeedModule | packages.NeedDeps,
 		Dir:     repo,
 		Fset:    fset,
 		Overlay: overlay,
